@@ -28,6 +28,8 @@ ASSUMPTIONS = ["n_cache is raised to 2*n_score_bins when n_score_bins > 50 (the 
 
 PALETTE = [[1, 0, 0, 0], [.5, .5, 0, 0], [.25, .25, .25, .25], [0, 0, .5, .5], [.7, .1, .1, .1], [.1, .2, .3, .4]]
 
+DEFAULT_PALETTE = PALETTE
+
 
 def bound(tier):
     return ("all queries of length <=2 x all ordered target pairs of length <=2 over a 4-column palette (+ 6-column palette for length-1/2 queries vs triples), shapes [1..5]^2, bins {10,100}"
@@ -46,6 +48,7 @@ def shards(tier, seed):
     out.append(dict(name="shapes", kind="shapes", weight=5000))
     out.append(dict(name="many_targets", kind="many", weight=6000))
     out.append(dict(name="alphabets", kind="alphabets", weight=4000))
+    out.append(dict(name="hash_grid", kind="hash_grid", weight=1500))
     out.append(dict(name="many_queries", kind="many_queries", numba_threads=4, weight=4000))
     return out
 
@@ -86,6 +89,8 @@ def check_case(rec, TT, Qc, Tcs, n_bins, rc, stats, hashing=False):
     case = dict(fn="tomtom", query=list(Qc), targets=[list(t) for t in Tcs], n_score_bins=n_bins, reverse_complement=rc, hashing=hashing)
     if Q.shape[0] != 4:
         case["alphabet_rows"] = int(Q.shape[0])
+    if PALETTE is not DEFAULT_PALETTE and len(PALETTE) <= 12 and Q.shape[0] == 4:
+        case["palette"] = [[float(x) for x in c] for c in PALETTE]      # the columns the indices refer to (for the replay)
     if degenerate(Q, T):
         stats["degenerate_skipped"] += 1
         return
@@ -340,6 +345,40 @@ def run_alphabets(rec, tier, seed):
     rec.sample(dict(kind="alphabets", rows=[2, 3, 5, 6, 20], query_lengths=[1, 2, 4], columns="unit, uniform, two-letter, beyond-row-4, Dirichlet"))
 
 
+def run_hash_grid(rec, tier, seed):
+    """Column hashing on (n_target_bins = 100): pooled target columns that differ by ONE bin in one row while another row sits at the two
+    ends of its (narrow) pooled range - distinct columns must stay distinct under the hash, identical ones are merged."""
+    from tangermeme.tools import tomtom as TT
+    global PALETTE
+    stats = dict(pairs=0, nontrivial=0, degenerate_skipped=0, pairs_score0=0, pairs_bin0_mass=0, pairs_general=0)
+    old = PALETTE
+    try:
+        for pal in (
+            # row A only takes 0.20 / 0.21 over the whole pool (range = one bin of row C after scaling)
+            # (row C spans 0..0.80, so .32 / .33 fall into neighbouring bins 40 / 41 while row A jumps from bin 0 to bin 99)
+            [[.21, .32, .27, .20], [.20, .33, .27, .20], [.20, .00, .60, .20], [.20, .80, .00, .00], [.21, .00, .59, .20], [.21, .40, .19, .20]],
+            [[.21, .32, .27, .20], [.20, .33, .27, .20], [.20, .30, .30, .20], [.21, .29, .25, .25], [.20, .40, .20, .20], [.21, .32, .27, .20]],
+            # row T constant, rows A / C at their extremes
+            [[.10, .60, .05, .25], [.40, .30, .05, .25], [.10, .59, .06, .25], [.40, .31, .04, .25], [.25, .45, .05, .25]],
+            # quarter grid whose first row only takes 0 / 0.25
+            [[.25, .25, .5, 0], [0, .5, .5, 0], [0, .25, .75, 0], [.25, 0, .5, .25], [0, 0, .5, .5], [.25, .5, 0, .25]],
+        ):
+            PALETTE = pal
+            n = len(pal)
+            for q in ([0], [1], [0, 2], [3, 1, 0], [4, 4]):
+                q = [c % n for c in q]
+                for Ts in ([[0], [1], [2, 3]], [[0, 1], [1, 0], [4]], [[i] for i in range(n)], [[0, 1, 2], [1, 1], [3, 4 % n, 0]]):
+                    for rc in (False, True):
+                        check_case(rec, TT, q, Ts + [q], 100, rc, stats, hashing=True)
+                        check_case(rec, TT, q, Ts + [q], 100, rc, stats, hashing=False)
+                        rec.case(2, 2)
+    finally:
+        PALETTE = old
+    for k, v in stats.items():
+        rec.count(k, v)
+    rec.sample(dict(kind="hash_grid", palettes=3, note="columns one bin apart in one row, another row at the ends of a narrow pooled range"))
+
+
 def run_many_queries(rec, tier, seed):
     """More than 1024 queries in one call: row i of the result is the result of query i (checked against the reference when run alone)."""
     from tangermeme.tools import tomtom as TT
@@ -385,6 +424,9 @@ def run_shard(sh, tier, seed):
     if sh["kind"] == "many_queries":
         run_many_queries(rec, tier, seed)
         return rec.result()
+    if sh["kind"] == "hash_grid":
+        run_hash_grid(rec, tier, seed)
+        return rec.result()
     if sh["kind"] == "many":
         run_many(rec, tier, seed)
         return rec.result()
@@ -400,6 +442,16 @@ def replay(v):
     c = v["case"]
     rec = Recorder(PID, "replay")
     stats = dict(pairs=0, nontrivial=0, degenerate_skipped=0, pairs_score0=0, pairs_bin0_mass=0, pairs_general=0)
+    if "palette" in c:
+        global PALETTE
+        old = PALETTE
+        PALETTE = c["palette"]
+        try:
+            check_case(rec, TT, c["query"], c["targets"], c["n_score_bins"], c["reverse_complement"], stats, hashing=c.get("hashing", False))
+        finally:
+            PALETTE = old
+        return (not rec.violations), "tomtom(query=%s, targets=%s over the recorded palette, hashing=%s): %s" % (
+            c["query"], c["targets"], c.get("hashing"), rec.violations[:2] or "agrees with the reference")
     if "n_queries" in c:
         run_many_queries(rec, "quick", 0)
         hit = [x for x in rec.violations if x["sig"] == v["sig"]]
